@@ -115,6 +115,52 @@ MShort(c, e) ==
           \cup (IF ss.size = e.shortsize /\ ss.table # e.shorttable THEN {3} ELSE {})
           \cup (IF [i \in 1..Len(dinn) |-> dinn[i].short] # ss.flags THEN {4} ELSE {})
 
+\* ---- one key/value list in all 16 option combinations (C13) -----------------
+\* e.ans[m] for m = 1 + dd + 2*innp + 4*leafp + 8*cpl holds the Get answers of the
+\* trie built with those flags; e.fp[dd + 1] the floor witnesses among the keys
+\* retained under that dd.
+ComboOpt(m) == LET x == m - 1 IN NormOpt(<<x % 2, (x \div 2) % 2, (x \div 4) % 2, (x \div 8) % 2>>)
+\* <<a, b>>: combination b stores no more than combination a (same dd); constant
+InfoPairs == {p \in (1..16) \X (1..16) : p[1] # p[2] /\ InfoLE(ComboOpt(p[2]), ComboOpt(p[1]))}
+ComboTab == TLCEval([m \in 1..16 |-> ComboOpt(m)])
+ModesBad(e) ==
+  LET n  == Len(e.keys)
+      nq == Len(e.qs)
+      Rd == TLCEval([d \in 1..2 |-> RetainedIdx(n, e.vals, e.hasvals, d = 2)])
+      IsKey(d, j) == e.fp[d][j] > 0 /\ e.keys[Rd[d][e.fp[d][j]]] = e.qs[j]
+      ValOfKey(d, j) == ValAt(e.vals, e.hasvals, Rd[d][e.fp[d][j]])
+      witnessbad == {j \in 1..nq : \E d \in 1..2 :
+                       LET f == e.fp[d][j] R == Rd[d] IN
+                       ~ /\ f \in 0..Len(R)
+                         /\ (f = 0 \/ Le(e.keys[R[f]], e.qs[j]))
+                         /\ (f = Len(R) \/ Lt(e.qs[j], e.keys[R[f + 1]]))}
+      built == \A m \in 1..16 : e.ans[m].err = "" /\ e.ans[m].pan = ""
+  IN [witness |-> witnessbad,
+      build   |-> IF built THEN {} ELSE {1},
+      \* found with more information => found with the same value with less
+      refine  |-> IF ~built THEN {} ELSE
+                  {j \in 1..nq : \E p \in InfoPairs :
+                     /\ e.ans[p[1]].gets[j][1] = 1
+                     /\ e.ans[p[2]].gets[j] # e.ans[p[1]].gets[j]},
+      \* Complete reports found only for retained keys
+      exact   |-> IF ~built \/ witnessbad # {} THEN {} ELSE
+                  {j \in 1..nq : \E m \in 1..16 :
+                     /\ IsComplete(ComboTab[m])
+                     /\ e.ans[m].gets[j][1] = 1
+                     /\ ~IsKey(IF ComboTab[m].dd THEN 2 ELSE 1, j)},
+      \* every mode answers retained keys identically (and, by C01, correctly)
+      onkeys  |-> IF ~built \/ witnessbad # {} THEN {} ELSE
+                  {j \in 1..nq : \E m \in 1..16 :
+                     LET d == IF ComboTab[m].dd THEN 2 ELSE 1 IN
+                     IsKey(d, j) /\ e.ans[m].gets[j] # <<1, ValOfKey(d, j)>>}]
+\* Layer M: one Model table per dd serves all modes (options only add payload)
+ModesDrift(e) ==
+  LET nd == TLCEval([d \in 1..2 |-> BuildNodes(e.keys, e.vals, e.hasvals, d = 2, TRUE)]) IN
+  {j \in 1..Len(e.qs) : \E m \in 1..16 :
+     LET o == ComboTab[m] d == IF o.dd THEN 2 ELSE 1 IN
+     e.ans[m].err = "" /\ e.ans[m].pan = "" /\
+     e.ans[m].gets[j] # ModelGet(e.keys, nd[d], o, e.vals, e.hasvals, e.qs[j])}
+
 \* ---- Stat (C18) -------------------------------------------------------------
 StatBad(c, e) ==
   LET lv == e.levels
